@@ -24,7 +24,7 @@
 (* the stub predictor's profile for the encoder), W next values, D terminated   *)
 (* flags, X per-row bootstrap (A2C: value of the last observation, MR.Q: target *)
 (* Q of the window's last next-observation).                                    *)
-EXTENDS Exact, FiniteSets, TLC, Json
+EXTENDS ReturnsOps, FiniteSets, TLC, Json
 
 CONSTANTS EMIT,      \* TRUE: print one EMIT record per completed vector
           DEPS,      \* TRUE: additionally emit the dependency structure per termination pattern
@@ -44,58 +44,7 @@ AllKinds == {"rtg", "nstep", "gae", "a2c", "ppo", "mrq", "enc", "ppoflat"}
 Emit(rec) == EMIT => PrintT(<<"EMIT", ToJson(rec)>>)
 
 ----------------------------------------------------------------------------
-(* 1. One trajectory                                                        *)
-
-RECURSIVE Pow(_, _)
-Pow(q, k) == IF k = 0 THEN One ELSE QMul(q, Pow(q, k - 1))
-Not(d) == I(1 - d)                       \* 1 - terminated, d \in {0,1}
-HasTerm(d, t)   == \E j \in t..Len(d) : d[j] = 1
-(* first terminated step at or after t, else the last step *)
-FirstTerm(d, t) == IF HasTerm(d, t)
-                   THEN CHOOSE j \in t..Len(d) : d[j] = 1 /\ \A i \in t..(j - 1) : d[i] = 0
-                   ELSE Len(d)
-
-(* reward to go: G_t = r_t + gamma * G_{t+1} *)
-RECURSIVE RTGAt(_, _, _)
-RTGAt(r, g, t) == IF t > Len(r) THEN Zero ELSE QAdd(r[t], QMul(g, RTGAt(r, g, t + 1)))
-RTG(r, g) == [t \in 1..Len(r) |-> RTGAt(r, g, t)]
-RTGClosed(r, g, t) == QSum([j \in 1..(Len(r) - t + 1) |-> QMul(Pow(g, j - 1), r[t + j - 1])])
-
-(* n-step return of a window and its residual discount:                     *)
-(*   R_t = r_t + gamma (1-d_t) R_{t+1},  c_t = gamma (1-d_t) c_{t+1}, c_{H+1} = 1 *)
-RECURSIVE NStepRet(_, _, _, _)
-NStepRet(r, d, g, t) == IF t > Len(r) THEN Zero
-                        ELSE QAdd(r[t], QMul(QMul(g, Not(d[t])), NStepRet(r, d, g, t + 1)))
-RECURSIVE NStepDisc(_, _, _)
-NStepDisc(d, g, t) == IF t > Len(d) THEN One ELSE QMul(QMul(g, Not(d[t])), NStepDisc(d, g, t + 1))
-NStepRetClosed(r, d, g) == QSum([j \in 1..FirstTerm(d, 1) |-> QMul(Pow(g, j - 1), r[j])])
-NStepDiscClosed(d, g)   == IF HasTerm(d, 1) THEN Zero ELSE Pow(g, Len(d))
-
-(* generalised advantage estimation:                                        *)
-(*   delta_t = r_t + gamma nv_t (1-d_t) - v_t                               *)
-(*   A_t = delta_t + gamma lambda (1-d_t) A_{t+1},  A_{T+1} = 0; ret = A + v *)
-Delta(r, v, nv, d, g, t) == QSub(QAdd(r[t], QMul(QMul(g, nv[t]), Not(d[t]))), v[t])
-RECURSIVE AdvAt(_, _, _, _, _, _, _)
-AdvAt(r, v, nv, d, g, l, t) ==
-  IF t > Len(r) THEN Zero
-  ELSE QAdd(Delta(r, v, nv, d, g, t), QMul(QMul(QMul(g, l), Not(d[t])), AdvAt(r, v, nv, d, g, l, t + 1)))
-GAEAt(r, v, nv, d, g, l, t) == LET a == AdvAt(r, v, nv, d, g, l, t) IN [adv |-> a, ret |-> QAdd(a, v[t])]
-GAE(r, v, nv, d, g, l) == [t \in 1..Len(r) |-> GAEAt(r, v, nv, d, g, l, t)]
-(* closed form, written independently: discounted sum of TD residuals up to the first termination *)
-AdvClosed(r, v, nv, d, g, l, t) ==
-  QSum([j \in 1..(FirstTerm(d, t) - t + 1) |-> QMul(Pow(QMul(g, l), j - 1), Delta(r, v, nv, d, g, t + j - 1))])
-(* the same closed form kept symbolic in G = gamma and C = gamma*lambda (device D3):        *)
-(*   A_t = SUM_j C^(j-1) (a_j + G b_j);   used where the routine fixes non-dyadic G, C      *)
-AdvForm(r, v, nv, d, t) ==
-  [j \in 1..(FirstTerm(d, t) - t + 1) |->
-     [a |-> QSub(r[t + j - 1], v[t + j - 1]), b |-> QMul(nv[t + j - 1], Not(d[t + j - 1]))]]
-EvalForm(f, G, C) == QSum([j \in 1..Len(f) |-> QMul(Pow(C, j - 1), QAdd(f[j].a, QMul(G, f[j].b)))])
-
-(* deviation: the accumulated advantage is not cut at a terminated step *)
-RECURSIVE AdvNoCut(_, _, _, _, _, _, _)
-AdvNoCut(r, v, nv, d, g, l, t) ==
-  IF t > Len(r) THEN Zero
-  ELSE QAdd(Delta(r, v, nv, d, g, t), QMul(QMul(g, l), AdvNoCut(r, v, nv, d, g, l, t + 1)))
+(* 1. One trajectory: the recurrences and closed forms are in ReturnsOps.tla  *)
 
 ----------------------------------------------------------------------------
 (* 2. Batches                                                               *)
